@@ -502,13 +502,19 @@ def table_layout(context, table, bottom_space, skip_stack, containing_block,
                 avoid_breaks = avoid_page_break(group.style['break_inside'], context)
                 break
 
+        def fits(new_table_children, resume_at):
+            # Rows that resume where they started have not displayed anything.
+            progress = new_table_children and (
+                resume_at is None or resume_at != skip_stack)
+            return progress or not table_rows or not page_is_empty
+
         if header and footer:
             # Try with both the header and footer.
             new_table_children, resume_at, next_page, end_position_y = (
                 body_groups_layout(
                     skip_stack, position_y + header_height,
                     bottom_space + footer_height, page_is_empty=avoid_breaks))
-            if new_table_children or not table_rows or not page_is_empty:
+            if fits(new_table_children, resume_at):
                 footer.translate(dy=end_position_y - footer.position_y)
                 end_position_y += footer_height
                 return (
@@ -524,7 +530,7 @@ def table_layout(context, table, bottom_space, skip_stack, containing_block,
                 body_groups_layout(
                     skip_stack, position_y + header_height, bottom_space,
                     page_is_empty=avoid_breaks))
-            if new_table_children or not table_rows or not page_is_empty:
+            if fits(new_table_children, resume_at):
                 return (
                     header, new_table_children, footer, end_position_y, resume_at,
                     next_page)
@@ -538,7 +544,7 @@ def table_layout(context, table, bottom_space, skip_stack, containing_block,
                 body_groups_layout(
                     skip_stack, position_y, bottom_space + footer_height,
                     page_is_empty=avoid_breaks))
-            if new_table_children or not table_rows or not page_is_empty:
+            if fits(new_table_children, resume_at):
                 footer.translate(dy=end_position_y - footer.position_y)
                 end_position_y += footer_height
                 return (
